@@ -1,4 +1,5 @@
 import Driver.LuCheck
+import Driver.PivotEng
 
 def readAll (h : IO.FS.Stream) : IO String := do
   let mut acc := ""
@@ -12,4 +13,5 @@ def main (args : List String) : IO UInt32 := do
   let stdin ← IO.getStdin
   match args with
   | ["lucheck"] => Drv.lucheckMain (← readAll stdin)
+  | ["pivot"] => Drv.pivotMain (← readAll stdin)
   | _ => IO.eprintln "usage: sludrv <engine>   (input on stdin)"; return 2
